@@ -7,7 +7,9 @@ From Refinery Require Import Lib.Base Model.Collector Proofs.CollectorAbs Gen.Ge
 (* What licenses [decide_one] (decision recorded, trace removed, and — if kept or dry run — ALL its spans
    handed to the transmission, in one atomic model step): facts re-read from the Go source on every run.
    Between makeDecision's Record and the transmission nothing can drop the trace:
-   - every decide site is `makeDecision; if err {continue}; send` (3 sites in the tick, 1 in the ejection);
+   - every call of makeDecision in the tick and in the ejection (counted by calls, whatever the control
+     structure around them: if-chain, switch, one shared block) is followed, on the non-error path, by
+     straight-line statements and `send` of what was decided; the error path only `continue`s;
    - `send` returns early only for an already-sent trace or a dropped one (2 returns), and hands the trace
      over with a plain blocking channel send — no select / default that could discard it when the queue is full;
    - `sendTraces` ranges over the queue until it is CLOSED — no select on a done channel that could abandon
@@ -16,7 +18,8 @@ From Refinery Require Import Lib.Base Model.Collector Proofs.CollectorAbs Gen.Ge
    compiles and the check searches for a concrete loss. *)
 Definition send_path_lossless : bool :=
   md_records_decision &&
-  Nat.eqb (length tick_decide_then_send_sites) 3 && eject_decide_then_send &&
+  negb (Nat.eqb (length tick_decide_calls) 0) && Nat.eqb (length tick_decide_then_send_sites) (length tick_decide_calls) &&
+  negb (Nat.eqb (length eject_decide_calls) 0) && Nat.eqb (length eject_decide_then_send_sites) (length eject_decide_calls) &&
   send_ends_with_plain_channel_send && negb send_has_select_or_default &&
   Nat.eqb (length send_returns) 2 && send_return_if_already_sent && send_return_if_dropped_and_not_dry &&
   sendtraces_ranges_over_queue_until_closed && negb sendtraces_has_select_or_done.
